@@ -252,6 +252,9 @@ silent("C17", "s-type prefactor spelled pi * sqrt(pi) / (alpha * sqrt(alpha))",
        ("sub", "coulomb.py", "    prefactor = (np.pi / alpha) ** 1.5\n",
         "    prefactor = np.pi * np.sqrt(np.pi) / (alpha * sqrt_alpha)\n"))
 
+silent("C13", "repair of the known finding: the molecule box anchored at min - extension",
+       ("sub", "cubic.py", "        origin = com - np.dot((0.5 * shape), axes)\n",
+        "        lower = min_coordinate - extension\n        origin = com + np.dot(lower / spacing, axes) if rotate else lower\n"))
 # ------------------------------------------------------------------------------------------ C01
 fire("C01", "tanh-sinh weights lose the factor pi/2", "R1.weights-are-node-map-derivative/onedgrid.TanhSinh",
      ("sub", "onedgrid.py", "        weights *= 0.5 * np.pi * delta\n", "        weights *= delta\n"))
